@@ -202,7 +202,10 @@ def run(tier, seed, replay):
                 "Lean evaluates tempoState and mpoRecord on them (compared with real Tempo / "
                 "compute_dynamics to 1e-8) and evaluates the HYPOTHESES of the theorems on them "
                 "(trace/Hermiticity preservation of every propagator, unit and conjugation property of "
-                "every influence table).  Every case is non-trivial (>=2 steps, non-commuting).")
+                "every influence table).  Every case is non-trivial (>=2 steps, non-commuting).  Always-run "
+                "physicality of paths that bypass the shipped tensors: a process tensor computed straight "
+                "into a file (all recorded states), mean-field runs with sampled propagators; plus the "
+                "PT-TEBD and Gibbs correspondences of C10 / C11.")
     res.assumptions = ["exact arithmetic; float round-off and SVD truncation (epsrel=1e-13 in the "
                        "correspondence) enter only through the 1e-8 comparison",
                        "expm / quad accuracy (scipy) is not verified: their outputs are checked to "
